@@ -181,6 +181,104 @@ def run_batch(ctx, ntasks, store, fine, faults, real_joblib=False):
     return problem, batch, exc, rows, info
 
 
+def gradient_body_factory(ntasks, failing, col=None):
+    """Designs AND their finite-difference children in one parallel batch (what GradientEvaluator dispatches), with a store;
+    optionally the first design's own call fails transiently once. Every design and every child ends with the costs of its
+    own vector, and its row is its final data."""
+    def body(ctx):
+        from artap.algorithm import Algorithm, EvaluatorType
+        from artap.datastore import SqliteDataStore, DummyDataStore
+        from artap.individual import Individual
+        from ..core import shim as shim_mod
+        from .c_support import make_problem, reset_ids
+        reset_ids()
+        shim_mod.install().reset(4242, None)
+        env = Env.cache.get("grad")
+        if env is None:
+            env = {"holder": None, "fail": False, "calls": 0}
+
+            def before(problem, individual):
+                h = env["holder"]
+                sch = h.get("sched") if h else None
+                if sch is not None:
+                    sch.point("obj:enter")
+                env["calls"] += 1
+                if env["fail"] and env["first"] is individual and not env["failed_once"]:
+                    env["failed_once"] = True
+                    raise TimeoutError("transient")
+
+            def after(problem, individual):
+                h = env["holder"]
+                sch = h.get("sched") if h else None
+                if sch is not None:
+                    sch.point("obj:exit")
+            env["problem"] = make_problem(n_params=1, bounds=[[0.0, 10.0]], criteria=["minimize", "maximize"], f=f, before=before, after=after)
+            env["alg"] = Algorithm(env["problem"], evaluator_type=EvaluatorType.GRADIENT)
+            env["alg"].options['max_processes'] = 2
+            Env.cache["grad"] = env
+        problem, alg = env["problem"], env["alg"]
+        problem.h_log, problem.failed, problem.individuals = [], [], []
+        env["fail"], env["failed_once"], env["calls"] = failing, False, 0
+        db = os.path.join(tempfile.gettempdir(), "c07g-%d.sqlite" % os.getpid())
+        for ext in ("", "-journal"):
+            if os.path.exists(db + ext):
+                os.remove(db + ext)
+        problem.data_store = SqliteDataStore(problem, database_name=db, thread_safe=True)
+        batch = [Individual([float(k + 1)]) for k in range(ntasks)]
+        env["first"] = batch[0]
+        exc = None
+        with scheduled(ctx, fine=False, db=True) as holder:
+            env["holder"] = holder
+            try:
+                alg.evaluate(batch)
+            except HarnessError:
+                raise
+            except BaseException as e:  # noqa
+                exc = e
+            finally:
+                env["holder"] = None
+        sch = holder.get("sched")
+        trace = list(sch.trace) if sch else []
+        problem.data_store = DummyDataStore()
+        con = sqlite3.connect(db)
+        try:
+            rows = dict(con.execute("SELECT id, individual FROM individuals").fetchall())
+        finally:
+            con.close()
+        desc = "gradient evaluator, %d designs with their children on 2 workers, transient failure of the first design: %r, schedule %r" % (ntasks, failing, trace[:50])
+        out = []
+        if exc is not None:
+            out.append(("C07:gradient:exception:%s" % type(exc).__name__, "evaluate raised %r; %s" % (exc, desc)))
+        everyone = []
+        for ind in batch:
+            everyone.append(("design", ind))
+            everyone += [("child", c) for c in ind.children]
+        for kind_, ind in everyone:
+            if exc is not None:
+                break
+            costs, signed = expected_fields(ind.vector)
+            if ind.state != Individual.State.EVALUATED or list(ind.costs) != costs:
+                out.append(("C07:gradient:%s:costs-not-of-its-vector" % kind_, "%s at %r: state %r costs %r, serial evaluation of that vector gives %r; %s" % (
+                    kind_, list(ind.vector), ind.state, list(ind.costs), costs, desc)))
+                break
+            row = rows.get(ind.id)
+            final = json.loads(json.dumps(ind.to_dict()))
+            keys = ("vector", "costs", "costs_signed", "state")     # the gradient feature is attached after the batch and stored by the closing sync_all
+            if row is None or any(json.loads(row).get(k) != final.get(k) for k in keys):
+                got = json.loads(row) if row else None
+                diff = sorted(k for k in keys if got is None or got.get(k) != final.get(k))
+                out.append(("C07:gradient:%s:row-not-final-data:%s" % (kind_, ",".join(diff[:4])), "%s id %d: stored row differs from the final individual in %r (stored state %r); %s" % (
+                    kind_, ind.id, diff, got.get("state") if got else None, desc)))
+                break
+        ctx.digest = (tuple(trace), type(exc).__name__ if exc else None)
+        if col is not None:
+            col.count("transitions", len(trace))
+            if sum(1 for a, b in zip(trace, trace[1:]) if a[0] != b[0]) > 1:
+                col.nontrivial(("grad", tuple(trace)))
+        return out
+    return body
+
+
 def judge(problem, batch, exc, rows, info, store, faults, desc):
     from artap.individual import Individual
     out = []
@@ -207,13 +305,16 @@ def judge(problem, batch, exc, rows, info, store, faults, desc):
         if abort and (k == len(batch) - 1 or ind.state != Individual.State.EVALUATED):
             if k == len(batch) - 1 and ind.state == Individual.State.EVALUATED:
                 bad("C07:abort:failing-design-evaluated", "the permanently failing design is marked evaluated")
+            if k == len(batch) - 1 and n != 5:
+                bad("C07:abort:attempts", "the permanently failing design was attempted %d times, the limit is five" % n)
             continue
         if not faults:
             if n != 1:
                 bad("C07:objective-calls:%s" % ("none" if n == 0 else "repeated"), "design %d evaluated %d times" % (k, n))
             costs, signed = expected_fields(ind.vector, constrained)
             if ind.state != Individual.State.EVALUATED:
-                bad("C07:state", "design %d state %r" % (k, ind.state))
+                bad("C07:state", "design %d state %r (costs %r)" % (k, ind.state, ind.costs))
+                continue
             if list(ind.costs) != costs:
                 bad("C07:costs-differ-from-serial", "design %d costs %r, serial evaluation gives %r" % (k, ind.costs, costs))
             if [float(x) for x in ind.costs_signed[:-1]] != [float(x) for x in signed[:-1]] or ind.costs_signed[-1] is not signed[-1]:
@@ -328,6 +429,11 @@ def _shard(shard, col: Collector):
                          case_extra={"ntasks": ntasks, "store": store, "fine": fine, "faults": faults})
         col.sample({"tasks": ntasks, "workers": 2, "store": store, "line_level": fine, "faults": faults,
                     "deviation_bound": bound, "executions_in_this_shard": n, "shard": "%d/%d" % (part, nparts)}, 3)
+    elif kind == "gradient":
+        _, ntasks, failing, bound, part, nparts = shard
+        body = gradient_body_factory(ntasks, failing, col)
+        n = explore_part(body, col, part, nparts, bound=bound, sub="gradient", case_extra={"ntasks": ntasks, "failing": failing})
+        col.sample({"kind": "gradient evaluator in parallel", "designs": ntasks, "failing": failing, "deviation_bound": bound, "executions_in_this_shard": n}, 1)
     elif kind == "free":
         _, ntasks, store, rounds = shard
         free_running(ntasks, store, rounds, col)
@@ -338,6 +444,9 @@ def replay(sub, case):
         c = Collector()
         free_running(case["ntasks"], case["store"], case["rounds"], c)
         return [(v["key"], v["message"]) for v in c.violations]
+    if sub == "gradient":
+        ctx, out = run_once(gradient_body_factory(case["ntasks"], case["failing"]), case["choices"])
+        return out
     body = body_factory(case["ntasks"], case["store"], case["fine"], case["faults"])
     ctx, out = run_once(body, case["choices"])
     return out
@@ -377,8 +486,13 @@ def run(tier, seed):
                   ("explore", 3, True, False, "mixedcls", 1), ("explore", 9, True, False, "mixedcls", 0),
                   ("explore", 4, True, False, "dupvec", 1), ("explore", 3, False, False, "dupvec", 2), ("explore", 3, True, False, "iterator", 1), ("explore", 1, False, False, "iterator", 1),
                   ("explore", 3, True, False, "abort", 1), ("explore", 4, True, False, "abort", 0), ("explore", 2, True, False, "serialise", 2), ("explore", 3, True, False, "serialise", 1)]
+    gb = 3 if tier == "thorough" else 2
+    shards += [("gradient", 1, False, gb), ("gradient", 1, True, gb), ("gradient", 2, False, gb - 1), ("gradient", 2, True, gb - 1)]
     split = []
     for sh in shards:
+        if sh[0] == "gradient":
+            split += [sh + (part, 4) for part in range(4)]
+            continue
         if sh[0] == "explore":
             split += [sh + (part, 8) for part in range(8)]
         else:
